@@ -143,6 +143,11 @@ Definition pguard (c : conn) (op : fop) : Prop :=
   | OParams md bl br un sb su =>
       le_opt (c_max_data c) md /\ le_opt (c_msd_bl c) bl /\ le_opt (c_msd_br c) br /\ le_opt (c_msd_uni c) un /\
       le_opt (c_ms_bidi c) sb /\ le_opt (c_ms_uni c) su
+  | OParamsP PTicket md bl br un sb su =>     (* restoring remembered parameters: same guard, an absent value is 0 *)
+      c_max_data c <= orz md 0 /\ c_msd_bl c <= orz bl 0 /\ c_msd_br c <= orz br 0 /\ c_msd_uni c <= orz un 0 /\
+      c_ms_bidi c <= orz sb 0 /\ c_ms_uni c <= orz su 0
+  | OParamsP PAccepted _ _ _ _ _ _ => True    (* NO guard: the repaired function refuses a lowered value itself *)
+  | OParamsP PRejected _ _ _ _ _ _ => False   (* not part of [freach]: see [preach] in FlowSendP3.v *)
   | _ => True
   end.
 
@@ -453,9 +458,64 @@ Proof. intros Hg. apply CInv_grow; try reflexivity; try lia; [apply sc_le_refl|e
 
 Ltac sc_solve := unfold sc_le; cbn [c_client c_msd_bl c_msd_br c_msd_uni c_ms_bidi c_ms_uni]; repeat split; try reflexivity; try lia.
 
+(* the repaired store loop: nothing but the six limits changes; with the check on (or with values that do not
+   lower anything) no limit is lowered, also when the loop stops with PROTOCOL_VIOLATION half way *)
+Lemma store_limits_keep chk c md bl br un sb su :
+  let c' := snd (store_limits chk c md bl br un sb su) in
+  c_client c' = c_client c /\ c_used c' = c_used c /\ c_streams c' = c_streams c /\
+  c_blk_bidi c' = c_blk_bidi c /\ c_blk_uni c' = c_blk_uni c.
+Proof.
+  unfold store_limits.
+  repeat match goal with |- context [if ?b then _ else _] => destruct b end; cbn; auto.
+Qed.
+
+Lemma store_limits_grow chk c md bl br un sb su :
+  chk = true \/ (c_max_data c <= md /\ c_msd_bl c <= bl /\ c_msd_br c <= br /\ c_msd_uni c <= un /\ c_ms_bidi c <= sb /\ c_ms_uni c <= su) ->
+  let c' := snd (store_limits chk c md bl br un sb su) in
+  sc_le c c' /\ c_max_data c <= c_max_data c'.
+Proof.
+  intros H. unfold store_limits, sc_le.
+  destruct (chk && (md <? c_max_data c)) eqn:E1; [cbn; repeat split; lia|].
+  destruct (chk && (bl <? c_msd_bl c)) eqn:E2; [cbn; repeat split; destruct chk; cbn in *; lia|].
+  destruct (chk && (br <? c_msd_br c)) eqn:E3; [cbn; repeat split; destruct chk; cbn in *; lia|].
+  destruct (chk && (un <? c_msd_uni c)) eqn:E4; [cbn; repeat split; destruct chk; cbn in *; lia|].
+  destruct (chk && (sb <? c_ms_bidi c)) eqn:E5; [cbn; repeat split; destruct chk; cbn in *; lia|].
+  destruct (chk && (su <? c_ms_uni c)) eqn:E6; cbn; repeat split; destruct chk; cbn in *; lia.
+Qed.
+
+(* the error outcome of the repaired function is raised exactly when 0-RTT was accepted and a value is lower
+   than the one held *)
+Lemma store_limits_ok chk c md bl br un sb su :
+  fst (store_limits chk c md bl br un sb su) = FOk ->
+  snd (store_limits chk c md bl br un sb su) = with_limits c md bl br un sb su /\
+  (chk = true -> c_max_data c <= md /\ c_msd_bl c <= bl /\ c_msd_br c <= br /\ c_msd_uni c <= un /\ c_ms_bidi c <= sb /\ c_ms_uni c <= su).
+Proof.
+  unfold store_limits.
+  destruct (chk && (md <? c_max_data c)) eqn:E1; [discriminate|].
+  destruct (chk && (bl <? c_msd_bl c)) eqn:E2; [discriminate|].
+  destruct (chk && (br <? c_msd_br c)) eqn:E3; [discriminate|].
+  destruct (chk && (un <? c_msd_uni c)) eqn:E4; [discriminate|].
+  destruct (chk && (sb <? c_ms_bidi c)) eqn:E5; [discriminate|].
+  destruct (chk && (su <? c_ms_uni c)) eqn:E6; [discriminate|].
+  intros _. split; [reflexivity|]. intros ->. cbn in *. lia.
+Qed.
+
+Lemma sum_high_reblock l : sum_high (map blocked_again l) = sum_high l.
+Proof. induction l as [|x l IH]; cbn [map sum_high blocked_again t_send]; [reflexivity|]. rewrite IH. reflexivity. Qed.
+
+Lemma paramsP_sum c pm md bl br un sb su :
+  let c' := snd (fstep c (OParamsP pm md bl br un sb su)) in
+  c_used c' = c_used c /\ sum_high (c_streams c') = sum_high (c_streams c).
+Proof.
+  cbn [fstep].
+  destruct (store_limits_keep (match pm with PAccepted => true | _ => false end) c
+              (orz md 0) (orz bl 0) (orz br 0) (orz un 0) (orz sb 0) (orz su 0)) as (_ & A & B & _).
+  destruct pm; cbn [snd reblock c_used c_streams]; rewrite ?sum_high_reblock, ?A, ?B; auto.
+Qed.
+
 Lemma step_inv c gm op : CInv c gm -> pguard c op -> CInv (snd (fstep c op)) (gstep gm op).
 Proof.
-  intros V G. destruct op as [sid d f|sid code|sid|v|sid v|uni v|md bl br un sb su| |sid ms|sid|sid k a b f|sid k|sid|sid|sid|sid k];
+  intros V G. destruct op as [sid d f|sid code|sid|v|sid v|uni v|md bl br un sb su| |sid ms|sid|sid k a b f|sid k|sid|sid|sid|sid k|pm md bl br un sb su];
     cbn [fstep]; try (change (gstep gm _) with gm).
   - (* send_stream_data *)
     destruct (for_send c sid) as [[c1 t]|] eqn:E; [|exact V]. destruct (for_send_inv _ _ _ _ _ V E) as (V1 & F1).
@@ -535,6 +595,14 @@ Proof.
   - (* STOP_SENDING delivery outcome *)
     destruct (find_strm sid (c_streams c)) as [t|] eqn:Ef; [|exact V]. cbn [snd].
     destruct k; [exact V|exact (CInv_upd_stop _ _ _ _ _ V Ef)].
+  - (* transport parameters, repaired function: restored from a ticket (guarded), or 0-RTT accepted (unguarded) *)
+    destruct pm; cbn [pguard] in G; [| |destruct G]; cbn [snd].
+    + destruct (store_limits_keep false c (orz md 0) (orz bl 0) (orz br 0) (orz un 0) (orz sb 0) (orz su 0)) as (K1 & K2 & K3 & K4 & K5).
+      destruct (store_limits_grow false c (orz md 0) (orz bl 0) (orz br 0) (orz un 0) (orz sb 0) (orz su 0) (or_intror G)) as (S1 & S2).
+      apply (CInv_grow c _ gm gm); [exact S1|intros; lia|exact K3|exact K4|exact K5|exact K2|exact S2|exact V].
+    + destruct (store_limits_keep true c (orz md 0) (orz bl 0) (orz br 0) (orz un 0) (orz sb 0) (orz su 0)) as (K1 & K2 & K3 & K4 & K5).
+      destruct (store_limits_grow true c (orz md 0) (orz bl 0) (orz br 0) (orz un 0) (orz sb 0) (orz su 0) (or_introl eq_refl)) as (S1 & S2).
+      apply (CInv_grow c _ gm gm); [exact S1|intros; lia|exact K3|exact K4|exact K5|exact K2|exact S2|exact V].
 Qed.
 
 Lemma freach_inv c gm : freach c gm -> CInv c gm.
@@ -607,7 +675,7 @@ Qed.
 Lemma used_tracks_highest c op :
   c_used (snd (fstep c op)) - c_used c = sum_high (c_streams (snd (fstep c op))) - sum_high (c_streams c).
 Proof.
-  destruct op as [sid d f|sid code|sid|v|sid v|uni v|md bl br un sb su| |sid ms|sid|sid k a b f|sid k|sid|sid|sid|sid k]; cbn [fstep].
+  destruct op as [sid d f|sid code|sid|v|sid v|uni v|md bl br un sb su| |sid ms|sid|sid k a b f|sid k|sid|sid|sid|sid k|pm md bl br un sb su]; cbn [fstep].
   - destruct (for_send c sid) as [[c1 t]|] eqn:E; [|cbn [snd]; lia]. destruct (for_send_sum _ _ _ _ E) as (A & B & F1).
     destruct (write (t_send t) d f) as [o s'] eqn:Ew. cbn [snd].
     assert (Hh : s_highest s' = s_highest (t_send t)) by (replace s' with (snd (write (t_send t) d f)) by (rewrite Ew; reflexivity); apply write_highest).
@@ -656,6 +724,7 @@ Proof.
     rewrite sum_upd_same by reflexivity. lia.
   - destruct (find_strm sid (c_streams c)) as [t|] eqn:Ef; [|cbn [snd]; lia]. cbn [snd].
     destruct k; cbn [with_streams c_used c_streams]; [lia|]. rewrite sum_upd_same by reflexivity. lia.
+  - destruct (paramsP_sum c pm md bl br un sb su) as (A & B). cbn [fstep] in A, B. lia.
 Qed.
 
 (* only _write_stream_frame changes `used`, and by exactly the rise of that stream's highest_offset *)
@@ -663,7 +732,7 @@ Lemma used_changes_only_in_get c op : c_used (snd (fstep c op)) <> c_used c ->
   exists sid ms t, op = OGet sid ms /\ find_strm sid (c_streams c) = Some t /\
     c_used (snd (fstep c op)) = c_used c + (s_highest (snd (get_frame (t_send t) ms (Some (max_offset c t)))) - s_highest (t_send t)).
 Proof.
-  intros Hne. destruct op as [sid d f|sid code|sid|v|sid v|uni v|md bl br un sb su| |sid ms|sid|sid k a b f|sid k|sid|sid|sid|sid k].
+  intros Hne. destruct op as [sid d f|sid code|sid|v|sid v|uni v|md bl br un sb su| |sid ms|sid|sid k a b f|sid k|sid|sid|sid|sid k|pm md bl br un sb su].
   all: try (match goal with |- exists _ _ _, OGet _ _ = _ /\ _ => fail 1 | _ => exfalso; apply Hne; cbn [fstep] end).
   - destruct (for_send c sid) as [[c1 t]|] eqn:E; [|reflexivity]. destruct (for_send_sum _ _ _ _ E) as (A & B & F1).
     destruct (write (t_send t) d f) as [o s']. cbn [snd upd_send with_streams c_used]. exact B.
@@ -697,6 +766,7 @@ Proof.
   - destruct (negb (can_receive c sid)); [reflexivity|]. destruct (find_strm sid (c_streams c)); reflexivity.
   - destruct (find_strm sid (c_streams c)) as [t|]; [|reflexivity]. destruct (negb (t_stop t) || t_blocked t); reflexivity.
   - destruct (find_strm sid (c_streams c)) as [t|]; [|reflexivity]. destruct k; reflexivity.
+  - exact (proj1 (paramsP_sum c pm md bl br un sb su)).
 Qed.
 
 (* ---------- stream-count limit and RESET_STREAM ---------- *)
